@@ -681,7 +681,14 @@ class State:
         if stop > MAX_MEMORY_SIZE:
             raise OutOfGasError(f"memory read {loc=} {size=} > MAX_MEMORY_SIZE")
 
+        self.mexpand(stop)
         return self.memory.slice(start=loc, stop=stop)
+
+    def mexpand(self, stop: int) -> None:
+        """Reading past the end of memory expands it (zero-filled), as writing does; observable through MSIZE."""
+
+        if stop > len(self.memory):
+            self.memory.append(b"\x00" * (stop - len(self.memory)))
 
     def set_mslice(self, loc: int, data: ByteVec) -> None:
         """Wraps a memory slice write with a size check."""
@@ -3309,6 +3316,7 @@ class SEVM:
 
                 elif opcode == OP_MLOAD:
                     loc: int = ex.mloc(check_size=True)
+                    state.mexpand(loc + 32)
                     state.push_any(state.memory.get_word(loc))
 
                 elif opcode == OP_PUSH0:
